@@ -59,6 +59,21 @@ def run(tier, seed):
                 r = d.call({"op": "compound", "s": g["text"]})
                 if "ok" in r and r["ok"]["cbor"] != g["hex"]:
                     acc.violate("c17:compound-encoding-changed", "%r now encodes differently from the pinned build" % g["text"], {"text": g["text"], "observed": r["ok"]["cbor"], "pinned": g["hex"]})
+            # (2b) identifiers that are not units (the neighbours of every shipped id, random ones) are refused EVERY time they are
+            # decoded, on a thread that keeps decoding real units in between
+            known_d = sorted(k for k in R.KEY2UNIT if k.startswith("D:"))
+            ids_ = {int(k[2:], 16) for k in known_d}
+            rngu = rng_for(seed, PID, "unknown", kind)
+            unk = sorted({(i + dlt) % 2 ** 32 for i in ids_ for dlt in (-2, -1, 1, 2)} - ids_) + [rngu.randrange(2 ** 32) for _ in range(200)]
+            unk = [u for u in unk if u not in ids_]
+            rep = d.call({"op": "c17_unknown_ids", "known": known_d, "unknown": ["D:%08x" % u for u in unk], "repeats": 3}, timeout=600)
+            if "accepted" not in rep:
+                acc.violate("c17:unknown-id:panic", "decoding identifiers that are not units: %s" % (rep,), {"observed": rep, "build": kind})
+            else:
+                acc.evaluations += rep["unknown"]
+                acc.counters["identifiers_that_are_not_units_decoded_three_times_" + kind] = rep["unknown"]
+                for a in rep["accepted"]:
+                    acc.violate("c17:unknown-id-accepted", "identifier %s is not a unit but decoded (attempt %d) as `%s`" % (a["id"], a["attempt"], a["decoded_as"]), dict(a, build=kind))
             # (3) in-process random sweeps
             keys = sorted(set(R.KEY2UNIT))
             rep = d.call({"op": "c17_compounds", "keys": keys, "count": ncomp, "seed": seed}, timeout=7200)
